@@ -98,6 +98,94 @@ def monitor(res, store, kind, t, ident, got, script, exact_case=True):
             res.violation('C03', 'store-lends-identity', '%s store answers the unconfigured identity %r with the record of another identity (publish list %r): a broker on this store delivers messages naming %r, an ident nobody was given' % (kind, ident, got.get('pubchans'), ident), script)
 
 
+def session_on_store(res, stores, t, script):
+    import asyncio
+    import hpfeeds.broker.server as BS
+    import hpfeeds.broker.connection as BC
+    import hpfeeds.protocol as P
+    from vloop import VirtualLoop
+
+    class _T(object):
+        def __init__(self):
+            self.w, self.closing = [], False
+
+        def write(self, b):
+            self.w.append(bytes(b))
+
+        def get_extra_info(self, name, default=None):
+            return ('127.0.0.1', 40123) if name == 'peername' else default
+
+        def close(self):
+            self.closing = True
+
+        abort = close
+
+        def is_closing(self):
+            return self.closing
+
+        def pause_reading(self):
+            pass
+
+        def resume_reading(self):
+            pass
+
+        def set_write_buffer_limits(self, *a, **k):
+            pass
+
+        def get_write_buffer_size(self):
+            return 0
+    usable = [i for i, r in t.items() if isinstance(i, str) and isinstance(r.get('secret'), str) and len(i.encode('utf-8')) <= 255
+              and all(isinstance(c, str) for c in r.get('pubchans', []) + r.get('subchans', []))]
+    if not usable:
+        return
+    import copy
+    t0 = copy.deepcopy(t)      # what was configured (the memory store holds the very objects of `t`)
+    loop = VirtualLoop()
+    asyncio.set_event_loop(loop)
+    try:
+        for kind, store in stores:
+            for ident in usable[:2]:
+                res.evaluations += 1
+                try:
+                    srv = BS.Server(store, name='hp')
+                    for offend in (False, True):
+                        c, tr = BC.Connection(srv), _T()
+                        c.connection_made(tr)
+                        fr = tr.w[0] if tr.w else b''
+                        nonce = fr[5 + 1 + fr[5]:] if len(fr) > 6 else b''
+                        data = P.msgauth(nonce, ident, t[ident]['secret'])
+                        for ch in t[ident]['subchans'][:2]:
+                            data += P.msgsubscribe(ident, ch)
+                        if offend:
+                            data += P.msgpublish(ident, 'not-a-channel-of-anybody', b'x')   # refused: OP_ERROR + close
+                        try:
+                            c.data_received(data)
+                        except Exception:
+                            pass
+                        c.connection_lost(None)
+                except Exception:
+                    res.note('session-on-store.error')
+                    continue
+                res.note('session-on-store.%s' % kind)
+                try:
+                    got = store.get_authkey(ident)
+                except Exception as e:
+                    res.violation('C17', 'lookup-raises', '%s store raised %r for %r after a broker session of that identity had ended' % (kind, e, ident), dict(script, lookup=ident))
+                    continue
+                before = len(res.violations)
+                monitor(res, store, kind, t0, ident, got, dict(script, lookup=ident, after='a broker session of this identity (authenticate, subscribe, one refused publish) has ended'))
+                for v in res.violations[before:]:
+                    v['what'] += ' - AFTER a broker session of this identity had ended: what a connection does with the lists it was handed reaches the store\'s own table'
+    finally:
+        loop.close()
+        asyncio.set_event_loop(None)
+        for i_, r_ in t0.items():          # the rest of the case goes on with the table as configured
+            if i_ in t and isinstance(t[i_], dict):
+                for k_ in ('pubchans', 'subchans'):
+                    if isinstance(r_.get(k_), list) and isinstance(t[i_].get(k_), list) and t[i_][k_] != r_[k_]:
+                        t[i_][k_][:] = r_[k_]
+
+
 def table_case(res, drv, tmp, k, t, t2, idents, idents2, empty_reload):
     """memory / json / sqlite / multi built from table `t` (second multi member and the reload target: `t2`)"""
     script = {'table': t, 'table2': t2, 'empty_reload': empty_reload}
@@ -155,6 +243,10 @@ def table_case(res, drv, tmp, k, t, t2, idents, idents2, empty_reload):
                 if mo != rec_str(got):
                     res.disagree('multi look-up', sc, rec_str(got), mo)
         res.nontriv(['tbl', sorted(t), ident])
+    # ---------------- what a broker session on the store leaves behind: a connection authenticates as a configured
+    # identity, subscribes, and goes away - the store still answers exactly what is configured (the stores hand out
+    # their own list objects; what a connection does with "its" lists must not reach the table)
+    session_on_store(res, (('memory', mem), ('json', js)), t, script)
     # ---------------- a stacked store whose FRONT member learns identities while the stack is in use (an override
     # added to the store in front of the one that has answered so far): every look-up is answered by the first member
     # that knows the identity NOW, whatever the stack answered before
